@@ -178,7 +178,7 @@ def one_case(ctx, cid, rng, idx):
             c.feature("blacklist:whole-chromosome" if len(opts["blacklist"]) > 3 else "blacklist:few")
         kw = dict(opts)
         if "x0" in kw:
-            kw["x0"] = kw["x0"].copy()          # cooler mutates it
+            x0_before = kw["x0"].copy()
         stored_twice = bool(idx % 5 == 3)
         if stored_twice:
             # history: the column already exists from an earlier run with other settings
